@@ -10,6 +10,35 @@
 import FcProofs.Lemmas.PyLiteLoops
 namespace Fc.PyLite
 
+/-! ### truthiness of constructor-headed values (so that the truth value of a SYMBOLIC value stays folded and can be
+    rewritten with a hypothesis `v.truthy = …`) -/
+theorem truthy_int (n : Int) : Val.truthy (.int n) = .ok (n != 0) := rfl
+theorem truthy_bool (b : Bool) : Val.truthy (.bool b) = .ok b := rfl
+theorem truthy_str (s : String) : Val.truthy (.str s) = .ok (s != "") := rfl
+theorem truthy_none : Val.truthy .none = .ok false := rfl
+theorem truthy_list (xs : List Val) : Val.truthy (.list xs) = .ok (!xs.isEmpty) := rfl
+theorem truthy_dict (kvs : List (Val × Val)) : Val.truthy (.dict kvs) = .ok (!kvs.isEmpty) := rfl
+theorem truthy_record (fs : List (String × Val)) :
+    Val.truthy (.record fs) =
+      match fs.lookup "__bool__" with
+      | some (.bool b) => .ok b
+      | some _ => .stuck
+      | Option.none => .ok true := rfl
+
+/-- `pylite_eval` that does not unfold the truthiness of a symbolic value -/
+syntax "orch_eval" ("[" Lean.Parser.Tactic.simpLemma,* "]")? : tactic
+macro_rules
+  | `(tactic| orch_eval) =>
+    `(tactic| simp [Fn.run, Fn.runGen, Fn.runTr, Fn.flow, initEnv, execBlock, exec, eval, evalList, withVal, withBool, bindAll,
+        St.set, Res.bind, Res.map, getAttr, binop, cmpop, ordOp, memOf, Val.eqv, Val.eqv.eqvList, truthy_int, truthy_bool,
+        truthy_str, truthy_none, truthy_list, truthy_dict, truthy_record,
+        Val.asList, Val.asInt, isNone, builtin, intsOf, anyM, allM, compM, forLoop, List.lookup])
+  | `(tactic| orch_eval [$ls,*]) =>
+    `(tactic| simp [Fn.run, Fn.runGen, Fn.runTr, Fn.flow, initEnv, execBlock, exec, eval, evalList, withVal, withBool, bindAll,
+        St.set, Res.bind, Res.map, getAttr, binop, cmpop, ordOp, memOf, Val.eqv, Val.eqv.eqvList, truthy_int, truthy_bool,
+        truthy_str, truthy_none, truthy_list, truthy_dict, truthy_record,
+        Val.asList, Val.asInt, isNone, builtin, intsOf, anyM, allM, compM, forLoop, List.lookup, $ls,*])
+
 /-- entering a call with the callee's own parameter list and body is `Fn.flow` of the callee -/
 theorem enterCall_eq_flow (X : Ext) (f : Fn) (vs : List Val) :
     enterCall f.params vs (execBlock X f.body) = f.flow X vs := by
